@@ -24,8 +24,7 @@ fn scval(env: &soroban_sdk::Env, v: &Val) -> Option<xdr::ScVal> {
 
 impl OperatorsBinder {
     pub fn new(inst: &J, init: &J) -> OperatorsBinder {
-        let mut cx = Ctx::new();
-        cx.ledger_step = 5;
+        let mut cx = Ctx::new_aging(5);
         let env = cx.env.clone();
         let owner = cx.addr(&jstr(init, "owner"));
         let ops = env.register(axelar_operators::AxelarOperators, (owner,));
@@ -88,9 +87,14 @@ impl OperatorsBinder {
     }
 
     pub fn exec(&mut self, act: &J) -> Obs {
+        self.cx.set_argdrop(act);
         let env = self.cx.env.clone();
         let name = jstr(act, "name");
         let ops = self.ops.clone();
+        if name == "HookOpenWindow" {
+            env.as_contract(&ops, || axelar_soroban_std::interfaces::verif_open_migration_window(&env));
+            return Obs { ok: true, ret: unit(), ev: vec![], err: String::new() };
+        }
         let auth_names: Vec<String> = jstrs(act, "auth");
         let (func, args): (&'static str, SVec<Val>) = match name.as_str() {
             "AddOperator" | "RemoveOperator" => {
